@@ -8,7 +8,10 @@ rejection of n != 1 on multiple-direction graphs (C12).
 C13-N1 (A5, interval domain): the exit test of the Newton-Raphson loop is evaluated with the
 residual far below -tolerance, within the tolerance and far above it: it may stop the iteration
 only in the middle case (a one-sided test accepts the overshoot of the first step when n < 1).
-The size of the residual reached and the number of iterations are numerical: NOT decided.
+C13-Q1 / C13-Q2 (A5, exact rational-function domain with uninterpreted pow, numeric representatives
+deciding the control path of a generic interior node): the closed form of the linear case and
+the residual / update of the Newton iteration are, symbolically, those of the discrete equation.
+The size of the residual reached, rounding and the number of iterations are numerical: NOT decided.
 """
 from ..interp import Interp, World, Interval, Obj, Sym, ThrowEx, explore, NOT_HANDLED
 from ..sir import pp, strip, walk, AnalysisBroken
@@ -120,6 +123,13 @@ def run(db, chk):
                        "convergence of the Newton-Raphson iteration"]
     chk.rule("C13-L1", "the linear-case flag computed by set_slope_exp is true exactly for n = 1 "
              "(evaluated on intervals below, at and above one)", min_instances=len(SCENARIOS))
+    chk.rule("C13-Q1", "linear case: the erosion written for a node is, as a rational-function identity "
+             "in all symbols, h - (h + sum_r f_r h_r')/(1 + sum_r f_r) with f_r = K dt (A w_r)^m / d_r, "
+             "i.e. the exact solution of the backward-Euler equation for n = 1 (one and two receivers)",
+             min_instances=2)
+    chk.rule("C13-Q2", "non-linear case: the residual the Newton loop evaluates is delta + F delta^n - "
+             "delta_0 with F = K dt (A w)^m / d^n, and the second iterate is delta_0 - f/f' (symbolic "
+             "identity on the first two evaluations)", min_instances=1)
     chk.rule("C13-N1", "the Newton-Raphson iteration of the non-linear case stops on a two-sided "
              "test of the residual against the tolerance (|residual| <= tolerance)", min_instances=1)
     chk.rule("C13-L2", "the flag and the stored exponent are written only by set_slope_exp (so "
@@ -167,4 +177,190 @@ def run(db, chk):
                 detail="" if ok else "the iteration stops as soon as the residual is below +tolerance: for a "
                 "concave equation (slope exponent < 1) the first Newton step overshoots to a large "
                 "NEGATIVE residual and is accepted as converged", extra={"unit": fn.unit.name})
+    n_sc += equation_rules(db, chk)
     chk.count_scenarios(n_sc, True)
+
+
+# ------------------------------------------------------------------------------------ Q1 / Q2
+# symbolic check of the discrete equation (rational functions with uninterpreted pow)
+
+from .. import ratfun                     # noqa: E402
+from ..ratfun import Dual                 # noqa: E402
+from ..interp import LoopBound, PyVec, ElemRef, NOT_HANDLED, Ref   # noqa: E402
+from .routers import Table               # noqa: E402
+
+QNODE = 7
+
+
+class EqWorld(World):
+    loop_bound = 2
+
+    def __init__(self, recs, vals):
+        self.recs = recs
+        self.v = vals
+        self.written = []
+        self.tol_tests = []
+
+    def sym_binop(self, op, a, b):
+        return ratfun.binop(op, a, b)
+
+    def sym_unop(self, op, a):
+        if op == "-":
+            return Dual.of(a).neg()
+        if op in ("abs", "fabs"):
+            return ratfun.ufun("fabs", a)
+        raise AnalysisBroken("equation model: unary %s" % op)
+
+    def sym_cmp(self, op, a, b):
+        for x, y in ((a, b), (b, a)):
+            if isinstance(y, Dual) and y is self.v["tol"] and isinstance(x, Dual):
+                self.tol_tests.append(x)
+        return ratfun.compare(op, a, b)
+
+    def before_call(self, it, fn, call, callee, frame):
+        name = callee.bn.split("::")[-1]
+        if name == "impl":
+            return Sym("impl", "i")
+        if name in ("receivers", "receivers_count", "receivers_distance", "receivers_weight"):
+            return self.tables[name]
+        if name == "nodes_indices_bottomup":
+            return PyVec([QNODE])
+        return NOT_HANDLED
+
+    def external(self, it, fn, call, frame):
+        bn = call.get("bn", "")
+        name = bn.split("::")[-1]
+        args = call.get("a", [])
+        obj = call.get("obj")
+        if bn in ("std::pow", "pow"):
+            return ratfun.upow(it.rv(it.eval(args[0], frame)), it.rv(it.eval(args[1], frame)))
+        if bn in ("std::fabs", "std::abs", "fabs", "abs"):
+            return ratfun.ufun("fabs", it.rv(it.eval(args[0], frame)))
+        if obj is not None:
+            o = it.rv(it.eval(obj, frame))
+            if isinstance(o, Table) and name in ("operator()", "flat", "operator[]", "at"):
+                return ElemRef(o, tuple(it.rv(it.eval(a, frame)) for a in args))
+            if isinstance(o, Sym) and o.kind == "elevarray":
+                i = it.rv(it.eval(args[0], frame))
+                return self.v["h"] if i == QNODE else self.v["e%d" % i]
+            if isinstance(o, Sym) and o.kind == "area":
+                return self.v["A"]
+            if isinstance(o, Sym) and o.kind == "kcoef":
+                return self.v["K"]
+            if isinstance(o, Sym) and o.kind == "erosion":
+                if name == "fill":
+                    return None
+                i = it.rv(it.eval(args[0], frame))
+                w = self
+
+                class R(Ref):
+                    def get(self_inner):
+                        return 0.0 if i == QNODE else w.v["ero%d" % i]
+
+                    def set(self_inner, val):
+                        if i != QNODE:
+                            raise AnalysisBroken("equation model: erosion of node %r written" % (i,))
+                        w.written.append(val)
+                return R()
+        return NOT_HANDLED
+
+
+def eq_values(recs, n_rep):
+    v = {"h": Dual.sym("h", 10.0), "A": Dual.sym("A", 4.0), "K": Dual.sym("K", 0.01),
+         "dt": Dual.sym("dt", 10.0), "m": Dual.sym("m", 0.5), "n": Dual.sym("n", n_rep),
+         "tol": Dual.sym("tol", 1e-12)}
+    reps = {20: (8.0, 1.0, 0.5, 2.0), 21: (9.0, 0.5, 0.5, 3.0)}
+    for r in recs:
+        eo, er, w, d = reps[r]
+        v["e%d" % r] = Dual.sym("e%d" % r, eo)
+        v["ero%d" % r] = Dual.sym("ero%d" % r, er)
+        v["w%d" % r] = Dual.sym("w%d" % r, w if len(recs) > 1 else 1.0)
+        v["d%d" % r] = Dual.sym("d%d" % r, d)
+    return v
+
+
+def run_equation(er, recs, linear):
+    v = eq_values(recs, 1.0 if linear else 1.7)
+    w = EqWorld(recs, v)
+    R, C, D, Wt = (Table(x) for x in ("r", "c", "d", "w"))
+    C[(QNODE,)] = len(recs)
+    for j, r in enumerate(recs):
+        R[(QNODE, j)] = r
+        D[(QNODE, j)] = v["d%d" % r]
+        Wt[(QNODE, j)] = v["w%d" % r]
+    w.tables = {"receivers": R, "receivers_count": C, "receivers_distance": D, "receivers_weight": Wt}
+    it = Interp(w)
+    this = Obj(SPL, {"m_flow_graph": Sym("flow_graph", "fg"), "m_erosion": Sym("erosion", "e"),
+                     "m_n_corr": 0, "m_k_coef": Sym("kcoef", "k"), "m_area_exp": v["m"],
+                     "m_slope_exp": v["n"], "m_tolerance": v["tol"], "m_linear": linear})
+    status = "ok"
+    try:
+        it.call_fn(er, this, [Sym("elevarray", "elev"), Sym("area", "A"), v["dt"]])
+    except LoopBound:
+        status = "loop-bound"
+    except ThrowEx as ex:
+        status = "threw " + ex.text
+    return w, v, status
+
+
+def equation_rules(db, chk):
+    n = 0
+    for er in db.fns(SPL + "::erode"):
+        uname = er.unit.name
+        # ---- Q1: closed form for n = 1, one and two receivers
+        for recs in ([20], [20, 21]):
+            n += 1
+            w, v, status = run_equation(er, recs, True)
+            bad = []
+            if status != "ok":
+                bad.append(status)
+            elif len(w.written) != 1:
+                bad.append("%d erosion writes" % len(w.written))
+            else:
+                num, den = v["h"], Dual.of(1)
+                for r in recs:
+                    f = ratfun.binop("/", ratfun.binop("*", ratfun.binop("*", v["K"], v["dt"]),
+                                                       ratfun.upow(ratfun.binop("*", v["A"], v["w%d" % r]), v["m"])),
+                                     v["d%d" % r])
+                    nxt = ratfun.binop("-", v["e%d" % r], v["ero%d" % r])
+                    num = ratfun.binop("+", num, ratfun.binop("*", f, nxt))
+                    den = ratfun.binop("+", den, f)
+                want = ratfun.binop("-", v["h"], ratfun.binop("/", num, den))
+                got = w.written[0]
+                if not (isinstance(got, Dual) and got.same(want)):
+                    bad.append("erosion is not h - (h + sum f_r*h_r')/(1 + sum f_r) with "
+                               "f_r = K*dt*(A*w_r)^m/d_r: got %r" % (got,))
+            chk.ob("C13-Q1", "[%s] linear case, %d receiver(s): returned erosion solves the backward-Euler "
+                   "equation (symbolic identity)" % (uname, len(recs)), not bad, where=er.ploc,
+                   function=er.bn, construct="closed-form(%d)" % len(recs), detail="; ".join(bad)[:400],
+                   extra={"unit": uname})
+        # ---- Q2: Newton residual of the non-linear case (single receiver)
+        n += 1
+        w, v, status = run_equation(er, [20], False)
+        bad = []
+        if status.startswith("threw"):
+            bad.append(status)
+        F = ratfun.binop("/", ratfun.binop("*", ratfun.binop("*", v["K"], v["dt"]),
+                                           ratfun.upow(ratfun.binop("*", v["A"], v["w20"]), v["m"])),
+                         ratfun.upow(v["d20"], v["n"]))
+        d0 = ratfun.binop("-", v["h"], ratfun.binop("-", v["e20"], v["ero20"]))
+
+        def resid(d):
+            return ratfun.binop("-", ratfun.binop("+", d, ratfun.binop("*", F, ratfun.upow(d, v["n"]))), d0)
+        f1 = resid(d0)
+        deriv1 = ratfun.binop("+", Dual.of(1), ratfun.binop("/", ratfun.binop("*", v["n"], ratfun.binop(
+            "*", F, ratfun.upow(d0, v["n"]))), d0))
+        d1 = ratfun.binop("-", d0, ratfun.binop("/", f1, deriv1))
+        f2 = resid(d1)
+        obs = w.tol_tests
+        if len(obs) < 2 and not bad:
+            bad.append("fewer than two residual evaluations observed (%d)" % len(obs))
+        for k, (o, want) in enumerate(zip(obs, (f1, f2))):
+            if not (o.same(want) or o.same(want.neg())):
+                bad.append("residual #%d is not delta + F*delta^n - delta_0 with F = K*dt*(A*w)^m/d^n "
+                           "(delta_1 = delta_0 - f/f'): got %r" % (k + 1, o))
+                break
+        chk.ob("C13-Q2", "[%s] non-linear case: the first two Newton residuals are those of the "
+               "discrete equation (symbolic identity)" % uname, not bad, where=er.ploc, function=er.bn,
+               construct="newton-residual", detail="; ".join(bad)[:400], extra={"unit": uname})
+    return n
